@@ -653,6 +653,12 @@ func (fc *funcContext) typeOf(expr ast.Expr) types.Type {
 			typ = inst.Type
 		}
 	}
+	// The same for a generic function of another package: pkg.F[T].
+	if sel, ok := expr.(*ast.SelectorExpr); ok {
+		if inst, ok := fc.pkgCtx.Instances[sel.Sel]; ok {
+			typ = inst.Type
+		}
+	}
 	return fc.typeResolver.Substitute(typ)
 }
 
